@@ -201,6 +201,15 @@ def query_avoid_reasons(q, partitions=2):
         return bool(hit)
 
     def visit_sel(s):
+        if s.group is not None:
+            gkeys = [struct_key(g) for g in s.group[1]]
+            for e, _ in s.items:
+                def fn(x):
+                    if x.k == "grouping":
+                        args = [struct_key(a) for a in x.a[0]]
+                        if args != gkeys[:len(args)] or len(args) != len(gkeys) or any(a.k != "col" for a in x.a[0]):
+                            reasons.add("grouping-function-argument-order")
+                _walk_exprs(e, fn)
         if s.where is not None and n_from_items(s.frm) >= 3 and has_bool_subq(s.where):
             reasons.add("optimizer-semi-join-reorder-loses-rows")
         for e in [s.where, s.having] + [x for x, _ in s.items]:
